@@ -95,6 +95,10 @@ def fake_theta_cls():
     return _FAKE["c"]
 
 
+def reset_state():
+    _FAKE.clear()
+
+
 def _holder(thetas):
     from batchie.core import ThetaHolder
 
@@ -261,9 +265,10 @@ def _run(plan, log, stats, violation):
         # (iii') one scorer object serving several calls (a worker scoring chunk after chunk): earlier calls
         # on other plates / other samples must not leak into later ones
         shared = G.GaussianDBALScorer(max_chunk=plan["max_chunks"][1], max_triples=5000)
-        if len(pids) >= 2:
-            shared.score(plates={pids[-1]: screen.get_plate(pids[-1])}, distance_matrix=_dm(D), samples=_holder(thetas[::-1]),
-                         rng=np.random.default_rng(9), progress_bar=False)
+        # first call: other samples order AND another distance matrix of the same size (an earlier round's draw)
+        D_prev = (D * 1.7 + 0.3) * (1 - np.eye(n))
+        shared.score(plates={pids[-1]: screen.get_plate(pids[-1])}, distance_matrix=_dm(D_prev), samples=_holder(thetas[::-1]),
+                     rng=np.random.default_rng(9), progress_bar=False)
         out_shared = shared.score(plates={pid: screen.get_plate(pid) for pid in pids}, distance_matrix=_dm(D), samples=_holder(thetas),
                                   rng=np.random.default_rng(10), progress_bar=False)
         if not record("scorer-reuse", {name_of(screen, int(k)): float(v) for k, v in out_shared.items()}):
